@@ -241,9 +241,9 @@ def run_history(hist, acc):
                     missing = [p for p in alive_through if p not in gpids]
                     if missing:
                         mech = "process_iter_omits_listed_pid"
-                        if any(p in flagged for p in missing):
+                        if all(p in flagged for p in missing):
                             mech += ":after_flagged_reuse"
-                        elif attrs is not None and all(any(i != listed_inc[p] for i in ever.get(p, ())) for p in missing):
+                        elif attrs is not None and ("ppid" in attrs or attrs == []) and all(any(i != listed_inc[p] for i in ever.get(p, ())) for p in missing):
                             mech += ":stale_entry_found_recycled_during_as_dict"
                         for p in missing:
                             model.pop(p, None)
@@ -379,7 +379,9 @@ def run_sched_case(case, acc, seen):
                 viols.append(("concurrent_iter_unlisted_pid", ctx + f" thread {i}: {seq} listed={listed}"))
             if set(seq) != set(listed):
                 mech = "concurrent_iter_omits_listed_pid"
-                if case["scn"].startswith("flagged") or case["scn"] == "iter_vs_isrun":
+                # the recorded finding drops exactly the entries that is_running() flagged as recycled (8, or 8 and 9)
+                flagged_pids = {"flagged_reuse": {8}, "flagged_two": {8, 9}, "iter_vs_isrun": {8, 9}}.get(case["scn"], set())
+                if flagged_pids and set(listed) - set(seq) <= flagged_pids and set(seq) <= set(listed):
                     mech += ":after_flagged_reuse"
                 viols.append((mech, ctx + f" thread {i}: {seq} listed={listed}"))
     h = (case["scn"], sch.interleaving_hash())
